@@ -14,7 +14,8 @@ RULE = (
     "percent-decode to the same bytes as the supplied unit.  Decoded-text (build, with_*, '/', joinpath, string and mapping queries): the unit "
     "must decode to the UTF-8 bytes of the supplied text ('%' is data).  In both, counts of literal and of encoded '/', '&', '=', '+', ';' are "
     "compared so delimiter status cannot flip, and join must keep the base directory's segments byte-identical.  update_query(str) and '%' read "
-    "their text as an encoded query: each supplied pair must come out with the same decoded bytes on receivers with and without a query.  EXHAUSTIVE kernel: all 256 "
+    "their text as an encoded query: each supplied pair must come out with the same decoded bytes on receivers with and without a query; extend_query() on "
+    "receivers whose query ends / starts with the unit keeps every existing pair and appends the new ones.  EXHAUSTIVE kernel: all 256 "
     "%XX in upper and lower case and all 128 ASCII literals x 6 component positions x 4 neighbour contexts; plus seeded random texts "
     "(no lone surrogates) on both backends; SHARED phase: the same monitors while 4-6 barrier-released threads parse and build distinct escape-rich URLs "
     "through the module-level quoters (switch interval 1 us; each thread records into its own recorder).  Signature = (entry point, component, class "
@@ -427,6 +428,38 @@ def check_update_str(ctx, t, sig):
                 return
 
 
+def check_extend_boundary(ctx, t, sig):
+    """The unit t sits at the END (and at the START) of the receiver's query, where extend_query() splices its text on: every pair the
+    receiver had must still be there, byte for byte, followed by the new pair - for str, mapping and pair-sequence arguments."""
+    from yarl import URL
+
+    if has_surrogate(t) or "#" in t:
+        return
+
+    def units(rq):
+        return [(k, v if v is not None else b"") for k, v in raw_query_units(rq) if (k, v) != (b"", None)] if rq else []
+
+    for base_s in (f"http://h/p?a=1{t}", f"http://h/p?{t}", f"/r?k={t}&z{t}"):
+        b = guarded(URL, base_s)
+        if is_exc(b):
+            continue
+        have = units(b.raw_query_string)
+        for label, fn, new in (("extend_query(str)", lambda: b.extend_query("x=1"), [(b"x", b"1")]), ("extend_query(dict)", lambda: b.extend_query({"x": "1"}), [(b"x", b"1")]),
+                               ("extend_query(pairs)", lambda: b.extend_query([("x", "1"), ("y", "2")]), [(b"x", b"1"), (b"y", b"2")]), ("extend_query(kwargs)", lambda: b.extend_query(x="1"), [(b"x", b"1")])):
+            case = {"regime": "extend_boundary", "text": t}
+            u = guarded(fn)
+            if is_exc(u):
+                ctx.fail("unexpected_exception", case, f"{label} on {base_s!r}: {u!r}")
+                continue
+            got = units(u.raw_query_string)
+            ok = got == have + new
+            ctx.count("extend_boundary_checked")
+            ctx.ev(sig + ("ok" if ok else "bad",) if sig else None)
+            if not ok:
+                ctx.fail("meaning_changed", case, f"{label} on {base_s!r}: expected pairs {have + new!r} got {got!r} (raw {u.raw_query_string!r})", fields=["extend_boundary"], raw=str(u))
+                return
+
+
 def check_retained(ctx, t, sig):
     """What a modifier RETAINS keeps its bytes: with_suffix keeps the stem (and every other segment), with_name / parent / '/' keep
     the other segments, of a receiver whose name carries the unit t in its stem and in its extension."""
@@ -487,6 +520,8 @@ def run(ctx):
             check_decoded(ctx, c["entry"], c["text"], ("replay",))
         elif c["regime"] == "update_str":
             check_update_str(ctx, c["text"], ("replay",))
+        elif c["regime"] == "extend_boundary":
+            check_extend_boundary(ctx, c["text"], ("replay",))
         else:
             check_join(ctx, c["base"], c["ref"], ("replay",))
         return
@@ -511,6 +546,7 @@ def run(ctx):
                     check_decoded(ctx, entry, t, (entry, kind, b >> 3, nb))
                 check_retained(ctx, t, ("retained", kind, b >> 3, nb))
                 check_update_str(ctx, f"k{t}=v{t}&x=1", ("update_str", kind, b >> 3, nb))
+                check_extend_boundary(ctx, t, ("extend_boundary", kind, b >> 3, nb))
                 check_join(ctx, f"http://h/d{t}/e{t}/f?bq#bf", f"g{t}/../h?{t}#{t}", ("join", kind, b >> 3, nb))
                 check_join(ctx, f"http://h/a%20b/c%2Fd%3F%23%25/{t}/f", "x", ("join-esc", kind, b >> 3, nb))
         # kept escapes (encoded delimiters, bytes >= 0x80, lower-case hex) placed around the compiled writer's buffer sizes: the
@@ -560,6 +596,8 @@ def run(ctx):
         if k % 4 == 0:
             qt = tg.text(4, 1)[0].replace("#", "")
             check_update_str(ctx, r.choice(["k={}", "{}=v", "a={}&b=2", "{}"]).format(qt) if "{" not in qt and "}" not in qt else qt, None if is_trivial_text(qt) else ("update_str", text_classes(qt)))
+        if k % 5 == 0:
+            check_extend_boundary(ctx, tg.text(3, 1)[0].replace("#", ""), None)
         if k % 3 == 0:
             bt = tg.text(3)[0].replace("?", "").replace("#", "")
             check_join(ctx, f"http://h/{bt}/x{bt}/f", tg.text(3)[0], ("join", text_classes(bt)))
